@@ -454,6 +454,11 @@ def run(F, rep):
 
     # ------------------------------------------------------------ D6
     ntok = 0
+    # the field that marks a token is the one the worker's token test reads (found in the worker, not by its name)
+    from rules import c05
+    _w = F.funcs.get(pipeline.CORE + "worker_thread")
+    _tag = c05.token_tag_fields(F, _w) if _w else None
+    tagf = sorted(_tag[0])[0] if _tag and len(_tag[0]) == 1 else "is_sync_token"
     for k in sorted(reach):
         f = F.funcs[k]
         if not k.startswith(pipeline.SQC):
@@ -463,7 +468,7 @@ def run(F, rep):
             for s in b["stmts"]:
                 if s["k"] == "assign" and s["rv"]["k"] == "agg" and s["rv"].get("adt", "").endswith("ContigTask"):
                     d = dict(zip(s["rv"]["fields"], [ex.operand(o) for o in s["rv"]["ops"]]))
-                    if d.get("is_sync_token") != ("const", 1):
+                    if d.get(tagf) != ("const", 1):
                         continue
                     ntok += 1
                     pr = strip_tags(d.get("sample_priority"))
